@@ -621,6 +621,51 @@ Example C13_class_members :
 Proof. exact static_members. Qed.
 Print Assumptions C13_class_members.
 
+(* ... and over format STRINGS: [items_of fmt] is what StrftimeItems::new(fmt) yields; whenever that list is
+   of the class, X::parse_from_str(&v.format(fmt).to_string(), fmt) = Ok(v with the printed fields) for
+   every value v *)
+Theorem C13_class_date_parse_from_str : forall fmt items,
+  items_of fmt = Val (Some items) ->
+  static_ok items = true -> forallb (it_kind_ok true false) items = true -> static_date_ok items = true ->
+  forall y o d, Proofs.C08Sweeps.repr y o d ->
+  exists text,
+    Model.Format.delayed_display (Model.Format.fa_of_date d) (Model.Strftime.sf_new fmt) = Model.Format.fok text /\
+    date_parse_from_str text fmt = pok d.
+Proof. exact class_date_parse_from_str. Qed.
+Print Assumptions C13_class_date_parse_from_str.
+
+Theorem C13_class_time_parse_from_str : forall fmt items k,
+  items_of fmt = Val (Some items) ->
+  static_ok items = true -> forallb (it_kind_ok false true) items = true -> static_time_ok items = true ->
+  frac_class_ok k items = true -> k = 3 \/ k = 6 \/ k = 9 ->
+  forall t, valid_time t ->
+  exists text,
+    Model.Format.delayed_display (Model.Format.fa_of_time t) (Model.Strftime.sf_new fmt) = Model.Format.fok text /\
+    time_parse_from_str text fmt = pok (static_time_value items k t).
+Proof. exact class_time_parse_from_str. Qed.
+Print Assumptions C13_class_time_parse_from_str.
+
+Theorem C13_class_ndt_parse_from_str : forall fmt items k,
+  items_of fmt = Val (Some items) ->
+  static_ok items = true -> forallb (it_kind_ok true true) items = true ->
+  static_date_ok items = true -> static_time_ok items = true ->
+  frac_class_ok k items = true -> k = 3 \/ k = 6 \/ k = 9 ->
+  forall y o d t, Proofs.C08Sweeps.repr y o d -> valid_time t ->
+  exists text,
+    Model.Format.delayed_display (Model.Format.fa_of_ndt (Model.DateTime.mk_ndt d t)) (Model.Strftime.sf_new fmt) = Model.Format.fok text /\
+    ndt_parse_from_str text fmt = pok (Model.DateTime.mk_ndt d (static_time_value items k t)).
+Proof. exact class_ndt_parse_from_str. Qed.
+Print Assumptions C13_class_ndt_parse_from_str.
+
+(* "%A, %d %B %Y %I:%M:%S%.3f %p", "%d/%m/%Y %H:%M", "%FT%T%.f" are of the class; "%D %R" (two-digit year) is not *)
+Example C13_class_format_strings :
+  fmt_ndt_class 3 [37;65;44;32;37;100;32;37;66;32;37;89;32;37;73;58;37;77;58;37;83;37;46;51;102;32;37;112] = true /\
+  fmt_ndt_class 9 [37;100;47;37;109;47;37;89;32;37;72;58;37;77] = true /\
+  fmt_ndt_class 9 [37;70;84;37;84;37;46;102] = true /\
+  fmt_ndt_class 9 [37;68;32;37;82] = false.
+Proof. exact class_format_strings. Qed.
+Print Assumptions C13_class_format_strings.
+
 (* the entry points' lazily driven loops coincide with the loops over the yielded item list *)
 Theorem C13_parse_sf_loop_is_parse_items : forall items fuel p s st, yields st items -> (List.length items < fuel)%nat ->
   parse_sf_loop fuel p s st = parse_items parse_rfc3339_relaxed p s items.
